@@ -15,10 +15,10 @@
 EXTENDS Naturals, Sequences
 
 CoreIds == {"w", "two", "empty", "bsn", "nl", "numstr", "int", "float", "t", "null", "ref", "uni", "flow", "chain", "syn", "tens", "qop", "tens3", "slashes", "nlsp", "ann", "ctor1", "holo", "l0", "l2", "l3", "lnest", "lmatrix", "lmap", "lfalsy", "lq", "lslash", "lexpr", "z1", "zpy", "ztrail", "zempty"}
-FullIds == {"three", "quote", "bslash", "tab", "truestr", "nullstr", "vsstr", "truedot", "neg", "zero", "big", "exp", "negexp", "f", "ver", "verpre", "var", "vartyped", "ref2b", "path", "hyph", "colon", "pct", "emoji", "alt", "con", "cat", "at", "mixed", "syn3", "slash2", "relpath", "abspath", "docpath", "nllead", "ctor2", "ctor0", "holoenum", "l1", "lnullmap", "lemptymap", "ltq", "lann", "lpattern", "z4", "ztab", "zblank"}
+FullIds == {"three", "quote", "bslash", "tab", "truestr", "nullstr", "vsstr", "truedot", "neg", "zero", "one", "fzero", "fone", "big", "exp", "negexp", "f", "ver", "verpre", "var", "vartyped", "ref2b", "path", "hyph", "colon", "pct", "emoji", "alt", "con", "cat", "at", "mixed", "syn3", "slash2", "relpath", "abspath", "docpath", "nllead", "ctor2", "ctor0", "holoenum", "l1", "lnullmap", "lemptymap", "ltq", "lann", "lpattern", "z4", "ztab", "zblank3", "l01", "zblank"}
 ValIds == CoreIds \cup FullIds
-ZoneIds == {"z1", "zpy", "z4", "ztrail", "zempty", "ztab", "zblank"}
-ListIds == {"holo", "holoenum", "l0", "l1", "l2", "l3", "lnest", "lmatrix", "lmap", "lfalsy", "lnullmap", "lemptymap", "lq", "ltq", "lslash", "lexpr", "lann", "lpattern"}
+ZoneIds == {"z1", "zpy", "z4", "ztrail", "zempty", "ztab", "zblank3", "zblank"}
+ListIds == {"holo", "holoenum", "l0", "l1", "l2", "l3", "lnest", "lmatrix", "lmap", "lfalsy", "lnullmap", "lemptymap", "lq", "ltq", "lslash", "lexpr", "lann", "lpattern", "l01"}
 
 Abs(v) ==
   CASE v = "w" -> [t |-> "str", s |-> "hello", xs |-> <<>>]
@@ -38,6 +38,9 @@ Abs(v) ==
     [] v = "int" -> [t |-> "int", s |-> "42", xs |-> <<>>]
     [] v = "neg" -> [t |-> "int", s |-> "-7", xs |-> <<>>]
     [] v = "zero" -> [t |-> "int", s |-> "0", xs |-> <<>>]
+    [] v = "one" -> [t |-> "int", s |-> "1", xs |-> <<>>]
+    [] v = "fzero" -> [t |-> "float", s |-> "0.0", xs |-> <<>>]
+    [] v = "fone" -> [t |-> "float", s |-> "1.0", xs |-> <<>>]
     [] v = "big" -> [t |-> "int", s |-> "9223372036854775808", xs |-> <<>>]
     [] v = "float" -> [t |-> "float", s |-> "3.14", xs |-> <<>>]
     [] v = "exp" -> [t |-> "float", s |-> "1000.0", xs |-> <<>>]
@@ -104,6 +107,8 @@ Abs(v) ==
     [] v = "ztrail" -> [t |-> "zone", s |-> "3:", xs |-> <<[t |-> "ln", s |-> "trail  ", xs |-> <<>>], [t |-> "ln", s |-> "tab{U0009}", xs |-> <<>>]>>]
     [] v = "zempty" -> [t |-> "zone", s |-> "3:", xs |-> <<>>]
     [] v = "ztab" -> [t |-> "zone", s |-> "3:txt", xs |-> <<[t |-> "ln", s |-> "{U0009}x", xs |-> <<>>], [t |-> "ln", s |-> "cafe{U0301}", xs |-> <<>>], [t |-> "ln", s |-> "q\"\\n", xs |-> <<>>]>>]
+    [] v = "zblank3" -> [t |-> "zone", s |-> "3:", xs |-> <<[t |-> "ln", s |-> "a  ", xs |-> <<>>], [t |-> "ln", s |-> "", xs |-> <<>>], [t |-> "ln", s |-> "", xs |-> <<>>], [t |-> "ln", s |-> "", xs |-> <<>>], [t |-> "ln", s |-> "{U00A7}1::X", xs |-> <<>>], [t |-> "ln", s |-> "{U00A7}2::Y", xs |-> <<>>]>>]
+    [] v = "l01" -> [t |-> "list", s |-> "", xs |-> <<[t |-> "int", s |-> "0", xs |-> <<>>], [t |-> "int", s |-> "1", xs |-> <<>>], [t |-> "bool", s |-> "true", xs |-> <<>>], [t |-> "null", s |-> "", xs |-> <<>>]>>]
     [] v = "zblank" -> [t |-> "zone", s |-> "3:", xs |-> <<[t |-> "ln", s |-> "x", xs |-> <<>>], [t |-> "ln", s |-> "", xs |-> <<>>], [t |-> "ln", s |-> "---", xs |-> <<>>]>>]
 
 Spell(v) ==
@@ -131,6 +136,9 @@ Spell(v) ==
     [] v = "int" -> <<<<[k |-> "first", c |-> <<"42">>]>>>>
     [] v = "neg" -> <<<<[k |-> "first", c |-> <<"-7">>]>>>>
     [] v = "zero" -> <<<<[k |-> "first", c |-> <<"0">>]>>>>
+    [] v = "one" -> <<<<[k |-> "first", c |-> <<"1">>]>>>>
+    [] v = "fzero" -> <<<<[k |-> "first", c |-> <<"0.0">>]>>>>
+    [] v = "fone" -> <<<<[k |-> "first", c |-> <<"1.0">>]>>>>
     [] v = "big" -> <<<<[k |-> "first", c |-> <<"9223372036854775808">>]>>>>
     [] v = "float" -> <<<<[k |-> "first", c |-> <<"3.14">>]>>>>
     [] v = "exp" -> <<<<[k |-> "first", c |-> <<"1e3">>]>>>>
@@ -255,6 +263,8 @@ Spell(v) ==
     [] v = "ztrail" -> <<<<[k |-> "first", c |-> <<>>], [k |-> "rel", c |-> <<"```">>], [k |-> "raw", c |-> <<"trail  ">>], [k |-> "raw", c |-> <<"tab", "U0009">>], [k |-> "rel", c |-> <<"```">>]>>>>
     [] v = "zempty" -> <<<<[k |-> "first", c |-> <<>>], [k |-> "rel", c |-> <<"```">>], [k |-> "rel", c |-> <<"```">>]>>>>
     [] v = "ztab" -> <<<<[k |-> "first", c |-> <<>>], [k |-> "rel", c |-> <<"```", "txt">>], [k |-> "raw", c |-> <<"U0009", "x">>], [k |-> "raw", c |-> <<"cafe", "U0301">>], [k |-> "raw", c |-> <<"q\"\\n">>], [k |-> "rel", c |-> <<"```">>]>>>>
+    [] v = "zblank3" -> <<<<[k |-> "first", c |-> <<>>], [k |-> "rel", c |-> <<"```">>], [k |-> "raw", c |-> <<"a  ">>], [k |-> "raw", c |-> <<>>], [k |-> "raw", c |-> <<>>], [k |-> "raw", c |-> <<>>], [k |-> "raw", c |-> <<"U00A7", "1::X">>], [k |-> "raw", c |-> <<"U00A7", "2::Y">>], [k |-> "rel", c |-> <<"```">>]>>>>
+    [] v = "l01" -> <<<<[k |-> "first", c |-> <<"[", "0", ",", "1", ",", "true", ",", "null", "]">>]>>>>
     [] v = "zblank" -> <<<<[k |-> "first", c |-> <<>>], [k |-> "rel", c |-> <<"```">>], [k |-> "raw", c |-> <<"x">>], [k |-> "raw", c |-> <<>>], [k |-> "raw", c |-> <<"---">>], [k |-> "rel", c |-> <<"```">>]>>>>
 
 NSpell(v) == Len(Spell(v))
